@@ -25,8 +25,10 @@ RULE = ("record level: operation histories (refresh_maybe / updated_refresh_time
         "halflife_passed / reset_ttl / set_expire_sooner / refresh_no_more / snapshot, plus remaining_ttl, update_ttl, "
         "set_expire outside the daemon alphabet) at the 50/80/85/90/95/100 % marks +-1 ms and +-1000 ms, TTL 0,1,2,3, odd/even, "
         "120, 4500, 2^31, 2^32-1, every TTL 1..300, creation times up to 2^64-1; daemon level: histories of injected "
-        "responses (TTL 0..40 s, flush bit, two interfaces, fresh copies, goodbyes) observed timer-exactly and with late "
-        "wake-ups; a case is non-trivial when it is not SKIP and contains at least one operation / one observation; "
+        "responses (TTL 0..47 s, flush bit, two interfaces, fresh copies = renewals, goodbyes), half of them with the interface "
+        "check switched off (set_ip_check_interval 0) so that only the records' own timers wake the daemon, observed "
+        "timer-exactly and with late wake-ups; inside timer-exact runs the model is also stepped at every mark / expiry time "
+        "of a received record at which the daemon did not iterate (a missing timer shows as a prescribed, unobserved query); a case is non-trivial when it is not SKIP and contains at least one operation / one observation; "
         "distinct = distinct case lines")
 TRUSTED = [
     "Coq 8.16.1 kernel (coqc); vm_compute only in the non-vacuity Examples",
@@ -71,6 +73,7 @@ def generate(rng, tier):
         cases.append(L.case_of(L.gen_ptr(rng, "ptr%d" % k), "sim-ptr"))
         cases.append(L.case_of(L.gen_svc(rng, "svc%d" % k), "sim-svc"))
         cases.append(L.case_of(L.gen_mix(rng, "mix%d" % k), "sim-mix"))
+        cases.append(L.case_of(L.gen_renew(rng, "renew%d" % k), "sim-renew"))
     return cases
 
 
